@@ -4,7 +4,9 @@ import (
 	"crypto/rsa"
 	"fmt"
 	mrand "math/rand"
+	"net"
 	"sync"
+	"sync/atomic"
 	"time"
 
 	"github.com/xelaj/mtproto"
@@ -41,6 +43,8 @@ func RunFreeMulti(scs []*Scenario, seed int64, timeout time.Duration) (ws []*Wor
 	}
 	var cl []*client
 	byHost := map[string]*Net{}
+	overTCP := map[string]*World{}
+	var dialMu sync.Mutex
 	for i, sc := range scs {
 		w := &World{Sc: sc, Store: &MemStore{}, Warn: make(chan error, 4096)}
 		w.Net = NewNet(nil)
@@ -58,6 +62,10 @@ func RunFreeMulti(scs []*Scenario, seed int64, timeout time.Duration) (ws []*Wor
 		w.Srv.RotateBefore = sc.RotateBefore
 		w.Net.Servers[addr] = w.Srv
 		byHost[addr] = w.Net
+		if sc.OverTCP {
+			w.RelayLast = &atomic.Int64{}
+			overTCP[addr] = w
+		}
 		stored := sc.Salt
 		if sc.StoredSalt != nil {
 			stored = *sc.StoredSalt
@@ -125,6 +133,9 @@ func RunFreeMulti(scs []*Scenario, seed int64, timeout time.Duration) (ws []*Wor
 		ws = append(ws, w)
 	}
 	transport.VerifDial = func(cfg transport.TCPConnConfig) (transport.Conn, error) {
+		if n, ok := byHost[cfg.Host]; ok && overTCP[cfg.Host] != nil {
+			return dialOverTCP(n, cfg, &dialMu, overTCP[cfg.Host].RelayLast)
+		}
 		if n, ok := byHost[cfg.Host]; ok {
 			return n.dial(cfg)
 		}
@@ -155,6 +166,70 @@ func RunFreeMulti(scs []*Scenario, seed int64, timeout time.Duration) (ws []*Wor
 	}
 	all.Wait()
 	return ws, timedOut
+}
+
+// dialOverTCP: the client gets the real tcpConn of transport.NewTCP on a loopback socket; a relay moves the bytes
+// between the other end of that socket and the in-memory connection to the reference server. The server's bytes
+// are written in pieces of 64 bytes with a short pause, so that an answer reaches the client in several reads.
+func dialOverTCP(n *Net, cfg transport.TCPConnConfig, mu *sync.Mutex, last *atomic.Int64) (transport.Conn, error) {
+	last.Store(time.Now().UnixNano())
+	mem, err := n.dial(cfg)
+	if err != nil {
+		return nil, err
+	}
+	mc := mem.(*Conn)
+	ln, err := net.Listen("tcp", "127.0.0.1:0")
+	if err != nil {
+		vr.HarnessError("loopback listener: %v", err)
+	}
+	go func() {
+		defer ln.Close()
+		pc, err := ln.Accept()
+		if err != nil {
+			return
+		}
+		if tc, ok := pc.(*net.TCPConn); ok {
+			tc.SetNoDelay(true)
+		}
+		go func() { // server -> client
+			defer pc.Close()
+			for {
+				b, ok := mc.Take()
+				if !ok {
+					return
+				}
+				for len(b) > 0 {
+					k := min(64, len(b))
+					if _, err := pc.Write(b[:k]); err != nil {
+						return
+					}
+					b = b[k:]
+					last.Store(time.Now().UnixNano())
+					time.Sleep(100 * time.Microsecond)
+				}
+			}
+		}()
+		buf := make([]byte, 4096) // client -> server
+		for {
+			k, err := pc.Read(buf)
+			if k > 0 {
+				last.Store(time.Now().UnixNano())
+				mc.Write(buf[:k])
+			}
+			if err != nil {
+				mc.Close()
+				return
+			}
+		}
+	}()
+	mu.Lock()
+	defer mu.Unlock()
+	seam := transport.VerifDial
+	transport.VerifDial = nil
+	defer func() { transport.VerifDial = seam }()
+	real := cfg
+	real.Host = ln.Addr().String()
+	return transport.NewTCP(real)
 }
 
 func runFreeClient(w *World, sc *Scenario, host string, pub *rsa.PublicKey, deadline time.Time) (timedOut bool) {
